@@ -127,6 +127,14 @@ func (e *Enc) typeAssert(f *frame, st *State, in *ssa.TypeAssert) Val {
 	} else {
 		res = e.unbox(x, in.AssertedType)
 	}
+	if res.Sh.K == KInt {
+		if pt, isPtr := in.AssertedType.Underlying().(*types.Pointer); isPtr {
+			saveR := e.curReach
+			e.curReach = and(saveR, ok)
+			e.assumeTypeInv(res, pt.Elem())
+			e.curReach = saveR
+		}
+	}
 	if in.CommaOk {
 		// on failure the value is the zero value
 		z := zeroVal(shapeOf(in.AssertedType))
